@@ -5,6 +5,7 @@ import (
 	"context"
 	"fmt"
 	"net"
+	"strings"
 	"sync"
 	"time"
 
@@ -179,9 +180,29 @@ type World struct {
 	intruderDone bool
 }
 
+// stallSafe lists the oracles that do not depend on threads making timely
+// progress. In a scenario that stalls a thread for seconds (stall=<d>) only
+// these are judged: timeouts may then legitimately break a connection, and
+// "the application's Close is still running" no longer means that the
+// connection is still in use.
+var stallSafe = []string{"stream/", "relay-sees-plaintext", "intruder-", "second-connection-while-previous-open/",
+	"pairing/key-stored-by-failed-handshake/", "rendezvous/directions-share", "panic"}
+
 func (w *World) fail(key, format string, a ...any) {
 	if w.findKeys[key] {
 		return
+	}
+	if w.sc.Cfg.StallQuantum > 0 {
+		safe := false
+		for _, p := range stallSafe {
+			if strings.HasPrefix(key, p) {
+				safe = true
+			}
+		}
+		if !safe {
+			w.reached["not-judged-under-stall:"+key] = true
+			return
+		}
 	}
 	w.findKeys[key] = true
 	w.findings = append(w.findings, finding{key, fmt.Sprintf(format, a...)})
